@@ -240,3 +240,30 @@ def hyp_reach(b, starts, call_value, stop=(), tyconst=None):
         for s in succ:
             work.append((s, nt))
     return reached
+
+
+def walk_coverage(prog, w, b, shapes=("Array", "Map", "Union", "Record")):
+    """for a recursive function over a Schema root: shape -> does the region of that shape contain a recursive call
+    (directly, or inside a closure built in the region)"""
+    from vpes import top_shapes
+    from mir import callee_names as _cn
+    vp = w.vpes(b)
+    roots = [r for r, a in vp.roots.items() if a == "schema::Schema"]
+    if not roots:
+        return None
+    rec = set(bi for bi, t in b.calls() if b.key in _cn(t["func"]))
+    out = {}
+    for s_, reg in top_shapes(vp, roots[0]):
+        S = vp.shape_name(s_, roots[0]).split("(")[0]
+        if S not in shapes:
+            continue
+        hit = bool(rec & set(reg))
+        if not hit:
+            for x in reg:
+                for st in b.blocks[x]["stmts"]:
+                    if st["s"] == "assign" and st["rv"]["r"] == "agg" and st["rv"].get("ak") == "closure":
+                        cb = prog.bodies.get(st["rv"].get("def"))
+                        if cb is not None and any(b.key in _cn(t["func"]) for _, t in cb.calls()):
+                            hit = True
+        out[S] = out.get(S, False) or hit
+    return out
